@@ -66,6 +66,31 @@ CHECKS = {
          "G-full grammars mixing annotated and inferred types (tuples, Vec/Option from repeats and macros, payload tokens, usize / Copy newtype / Clone-only newtype locations, both lexers) x both code generators x 3 algorithms: every unit LALRPOP accepts must compile.",
          "User code is well-typed by construction (actions render through a trait implemented for every value type); generics / user lifetimes beyond 'input are not generated.",
          "DESIGN.md section 3, C19"),
+ "C14": ("exploration",
+         "metamorphic property-based testing with compiled parsers: (G, G with a random subset of eligible nonterminals marked #[inline]) pairs from proptest byte tapes, same generated inputs (incl. poisoned tokens that make fallible actions fail) through both; plus the model's prediction of the inlined action order",
+         "Pairs with nested inlining, several occurrences per alternative, several different inlined nonterminals per alternative, empty and fallible inlined productions x 6 configurations: same Ok value / same error on every input whenever both forms are accepted, and the action log of the inlined form equals the model's (inlined actions left to right, inner first, just before the host action).",
+         "Trusts the harness's reference model (harness/src/model + gspec.rs elaboration, written from the book and the property statements; membership is computed by two independent algorithms that are cross-checked on every run), rustc, and the batch runtime rt.rs. Grammar sizes are bounded (<= 6 nonterminals + helpers, <= 8 terminals, inputs <= 16 tokens). Location values of empty derivations are excluded (C06).",
+         "DESIGN.md section 3, C14"),
+ "C15": ("exploration",
+         "property-based testing with a metamorphic text oracle (grammar with #[cfg] under a feature set vs the same grammar with the inactive items deleted by the model: same verdict, byte-identical generated code after the header) plus the compiled differential against the model of the deleted grammar",
+         "G-full grammars decorated with nested not/all/any predicates (1-2 attributes per item) on alternatives, extra gated alternatives, gated nonterminals and gated extern conversions x feature subsets of {f1, x-y, abc, z9} passed with --features.",
+         "Trusts the harness's reference model (harness/src/model + gspec.rs elaboration, written from the book and the property statements; membership is computed by two independent algorithms that are cross-checked on every run), rustc, and the batch runtime rt.rs. Grammar sizes are bounded (<= 6 nonterminals + helpers, <= 8 terminals, inputs <= 16 tokens). Features are supplied through the CLI's --features; the set_features and CARGO_FEATURE_* routes are exercised by C23's driver configurations only for path handling, not for predicates. Attributes are never put on empty alternatives (the grammar syntax does not allow it).",
+         "DESIGN.md section 3, C15"),
+ "C16": ("exploration",
+         "property-based testing of compiled table-driven parsers with a validity predicate over the returned tree (several outputs are legal): the rendering is re-parsed and checked against the grammar and the input",
+         "Grammars with `!` at several depths (statement lists, recover-to-terminator, `!` after a prefix, bracketed, bare) x 3 algorithms x sentences of the `!`-free grammar with 0-3 edits and random strings: derivation with `!` as a terminal, leaves an ordered subsequence of the input, every other token inside exactly one error span, spans ordered and disjoint, dropped_tokens in input order, no recovery on sentences.",
+         "Trusts the harness's reference model (harness/src/model + gspec.rs elaboration, written from the book and the property statements; membership is computed by two independent algorithms that are cross-checked on every run), rustc, and the batch runtime rt.rs. Grammar sizes are bounded (<= 6 nonterminals + helpers, <= 8 terminals, inputs <= 16 tokens). Err results carry no claim here (C08/C17 apply).",
+         "DESIGN.md section 3, C16"),
+ "C25": ("exploration",
+         "metamorphic property-based testing with compiled parsers: (G, injective renaming of G into an adversarial identifier pool) pairs, same inputs through both",
+         "Renames nonterminals, macro names, macro parameters, bindings, the grammar parameter and its lifetime into names that start with `__` or look like names LALRPOP derives (__0 __sym0 __lookahead __tokens __Symbol __StateMachine __action0 Token alloc core v e ...): same LALRPOP verdict, same compile result, identical answers on every input x 6 configurations.",
+         "Trusts the harness's reference model (harness/src/model + gspec.rs elaboration, written from the book and the property statements; membership is computed by two independent algorithms that are cross-checked on every run), rustc, and the batch runtime rt.rs. Grammar sizes are bounded (<= 6 nonterminals + helpers, <= 8 terminals, inputs <= 16 tokens). Type parameters other than the lifetime are not generated; the DESIGN finding F8 (precedence level name collision) needs annotated nonterminals, which this generator does not rename into (see DESIGN).",
+         "DESIGN.md section 3, C25"),
+ "C27": ("exploration",
+         "property-based stress testing of compiled parsers: one shared parser value, generated input multisets and generated per-thread schedules (proptest tapes), sequential reuse then T in {2,4,8,16} threads behind a barrier; oracle = answer of a fresh parser on the same input alone; compile-time Send + Sync assertion",
+         "Accepted grammars (built-in lexer weighted up) x {table, ascent} x pub symbols: every answer (value / error / expected list / log / pulls) under sequential reuse and under concurrent use equals the fresh-parser answer.",
+         "The harness does not own the scheduler (the lazy DFA cache lives in regex-automata), so interleavings are sampled by stress, not enumerated; the input and reuse dimensions are explored properly.",
+         "DESIGN.md section 3, C27"),
  "C21": ("exploration",
          "stateful / model-based property testing: operation histories decoded from proptest byte tapes, interpreted against the real file system and against the model expected_output = F(current text) (F = memoised forced build in a separate directory); oracle = byte equality with F, inode+ns-mtime identity for already-current outputs, absence of output after a failed build; tape shrinking of failing histories",
          "Generated-input search over histories of <= 25 operations on 1-3 grammar files (edit, revert, touch, introduce/remove error, build through the CLI and the Configuration API in 7 modes with in-source / flat / mirrored output locations, forced or not, delete output, 6 version-line and 8 hash-line corruptions, truncation inside the header, foreign complete output, output mtime older/newer). Invariant checked after every build step. 500 histories (~3000 builds) quick, 12000 thorough.",
@@ -74,7 +99,7 @@ CHECKS = {
  "C22": ("fault_enumeration",
          "fault enumeration with an LD_PRELOAD shim (faultinj/faultinj.c: SIGKILL after k bytes written to regular files, SIGKILL before the K-th unlink/create/write/rename/mkdir, or ENOSPC at byte k) plus property-based (proptest byte tape) generation of sequences of 1-2 crashed builds; oracle = after one normal non-forced build the .rs and the report equal a forced reference build byte for byte; shim cross-checked against kernel RLIMIT_FSIZE",
          "Every crash point of the build of small grammars: quick = every byte offset in the first 256 and last 64 bytes of each written file and every 61st between, every file-system operation boundary, a sparser sweep of write errors, on 4 scenarios (with/without --report, in-source / -o, output absent / current / stale beforehand) + 400 generated crash sequences over all 36 scenarios; thorough = all byte offsets of the 4 scenarios, the sampled sweep on all 36, 8000 sequences.",
-         "Crashes are process kills and failing writes; power loss (lost page cache, reordered metadata) is not modelled. All builds of a case use the same flags and grammar text. Currently fails on the pinned tree (DESIGN finding F1); silent with proposed_fixes/C22-atomic-output.diff applied.",
+         "Crashes are process kills and failing writes; power loss (lost page cache, reordered metadata) is not modelled. All builds of a case use the same flags and grammar text. The pinned tree violated this (DESIGN finding F1: header written before the body); repaired by the fix: commit recorded in known_findings.jsonl, whose pinned repros are replayed on every run.",
          "DESIGN.md section 3, C22"),
  "C23": ("exploration",
          "property-based testing: random directory trees + driver configurations decoded from proptest byte tapes, each run twice; oracle = independent path model written from the property statement (own symlink-following directory walker + documented output-path rule), content compared with a forced reference build, rerun directives compared with the processed set; tape shrinking",
